@@ -39,6 +39,11 @@ TRANSPARENT_GENERIC = {
     "std::string::String::as_bytes",
     "core::str::<impl str>::as_bytes",
     "std::vec::Vec::<T, A>::as_slice",
+    # value-preserving on the success payload
+    "std::result::Result::<T, E>::map_err",
+    "std::option::Option::<T>::ok_or",
+    "std::option::Option::<T>::ok_or_else",
+    "std::hint::must_use",
 }
 
 UNWRAP_VARIANTS = {"Some", "Ok", "Ready", "Continue"}
@@ -99,6 +104,18 @@ class Origins:
             p = op["place"]
             return self.of_place(p["local"], _projkey(p["proj"]), depth, stack)
         return ("unknown", "operand")
+
+    def init_of(self, local):
+        """origin of a mutable variable's initialiser(s) (bypasses the identity stop for that variable)"""
+        saved = self.mut_locals
+        self.mut_locals = saved - {local}
+        memo = self.memo
+        self.memo = {}
+        try:
+            return self.of_place(local, ())
+        finally:
+            self.mut_locals = saved
+            self.memo = memo
 
     def of_place_json(self, p):
         return self.of_place(p["local"], _projkey(p["proj"]))
